@@ -97,6 +97,9 @@ structure Shape where
   s2 : Nat
   deriving Repr, DecidableEq
 
+/-- the mesh shape of a half-complex mesh of size `n` -/
+def halfShape (n : Nat) : Shape := ⟨n, n, n / 2 + 1⟩
+
 /-- one accumulated cell: `counts[tid, b, m] += w`, `weighted_counts[tid, b, m] += w * weights[i,j,k]`;
 `q` is the integer `kmag2` (for `bin_kppi`: `k_perp**2`) -/
 structure Contrib where
